@@ -1,6 +1,7 @@
 package harness
 
 import (
+	"fmt"
 	"strings"
 
 	sp "github.com/scipipe/scipipe"
@@ -26,8 +27,45 @@ func TagValue(path string) string {
 	return "t_" + b
 }
 
+// MultiSub sends one sub-stream carrier IP per in-port, in port order, right
+// away; each carrier's sub-stream is the corresponding in-port, so the
+// sub-streams close whenever their upstreams finish.
+type MultiSub struct {
+	sp.BaseProcess
+	ports []string
+}
+
+func newMultiSub(wf *sp.Workflow, name string, ports []string) *MultiSub {
+	p := &MultiSub{BaseProcess: sp.NewBaseProcess(wf, name), ports: ports}
+	for _, pt := range ports {
+		p.InitInPort(p, pt)
+	}
+	p.InitOutPort(p, "out")
+	wf.AddProc(p)
+	return p
+}
+
+func (p *MultiSub) Run() {
+	defer p.CloseAllOutPorts()
+	for i, pt := range p.ports {
+		ip, err := sp.NewFileIP(fmt.Sprintf("/tmp/carrier_%s_%d", p.Name(), i))
+		if err != nil {
+			p.Fail(err)
+		}
+		ip.SubStream = p.InPort(pt)
+		p.OutPort("out").Send(ip)
+	}
+}
+
 func buildComponent(wf *sp.Workflow, w *WF, n *Node, rt *Runtime) outPorter {
 	switch n.Kind {
+	case KMultiSub:
+		var ports []string
+		for _, in := range n.Ins {
+			ports = append(ports, in.Name)
+		}
+		p := newMultiSub(wf, n.Name, ports)
+		return &compAdapter{out: func(string) *sp.OutPort { return p.OutPort("out") }, in: p.InPort}
 	case KMapToTags:
 		key := n.TagKey
 		p := components.NewMapToTags(wf, n.Name, func(ip *sp.FileIP) map[string]string {
